@@ -18,7 +18,7 @@ def tlc_lines(path, tag):
                     continue
 
 
-def table_run(pid, module, sub, tier, seed, wd, prefixes, sig, need=None, binp=None, harness_args=(), label=None):
+def table_run(pid, module, sub, tier, seed, wd, prefixes, sig, need=None, binp=None, harness_args=(), label=None, env=None):
     """One decision-table pipeline. Returns dict(design, cases, viols, divergences, obs_summary)."""
     label = label or module
     d = tlc(wd, f"{module}Design.tla", cfg=f"{module}Design_{tier}.cfg", timeout=3600, outfile=f"{module}.design.out")
@@ -32,7 +32,7 @@ def table_run(pid, module, sub, tier, seed, wd, prefixes, sig, need=None, binp=N
         raise Inconclusive(f"{module}: TLC checked {d['distinct']} cases but exported {n}")
     log(f"[{pid}] design {module} ({tier}): {n} cases, every rule holds under the code's decision procedure ({d['wall']:.0f}s)")
     binp = binp or go_build(wd)
-    rc, out = run([binp, sub, "-in", f"{module}.cases.ndjson", "-out", "obs.ndjson", "-seed", str(seed), "-tier", tier] + list(harness_args), wd, timeout=3600)
+    rc, out = run([binp, sub, "-in", f"{module}.cases.ndjson", "-out", "obs.ndjson", "-seed", str(seed), "-tier", tier] + list(harness_args), wd, timeout=3600, env=env)
     if rc != 0 or "EXECUTED" not in out:
         raise Inconclusive(f"{sub} failed:\n" + out[-3000:])
     shutil.copy(os.path.join(wd, "obs.ndjson"), os.path.join(wd, f"{module}.obs.ndjson"))
@@ -368,7 +368,69 @@ def c19_need(o):
     return [f"{c['kind']}:{o['o']['accepted']}"]
 
 
+def c20_check(pid, tier, seed, replay=None):
+    """C20: sequential isolation programs + concurrent programs under the Go race detector (spec/Isolation.tla)."""
+    import glob, re
+    t0 = time.time()
+    wd = workdir(pid)
+    try:
+        binp = go_build(wd, race=True)
+        tlc(wd, "OPEmitWorld.tla", cfg="OPEmitWorld.cfg", workers=1, timeout=120)
+        env = dict(GOENV, VERIF_RACELOG=os.path.join(wd, "race"), GORACE=f"log_path={os.path.join(wd, 'race')} halt_on_error=0")
+        if tier == "replay":
+            shutil.copy(os.path.join(replay, "Isolation.cases.ndjson"), wd)
+            rc, out = run([binp, "tbl-isolation", "-in", "Isolation.cases.ndjson", "-out", "obs.ndjson", "-world", "world.json"], wd, env=env)
+            t = tlc(wd, "IsolationTrace.tla", cfg="IsolationTrace_quick.cfg", timeout=1800, outfile="Isolation.trace.out")
+            bad = list(tlc_lines(os.path.join(wd, "Isolation.trace.out"), "VIOL"))
+            for v in bad[:20]:
+                log("  ", json.dumps(v))
+            for f in glob.glob(os.path.join(wd, "race.*")):
+                log(open(f).read()[:3000])
+            if bad:
+                log(f"VIOLATION property={pid} replay={replay}")
+                return 1
+            return 0
+        sig = lambda o: f"{o['c']['kind']}:{'+'.join(o['c']['prog'])}:{','.join(o['o']['changed']) or 'race'}"
+        tb = table_run(pid, "Isolation", "tbl-isolation", tier, seed, wd, ("C20.",), sig,
+                       need=lambda o: [o["c"]["kind"]] + [f"op:{x}" for x in o["c"]["prog"]], binp=binp, label="isolation programs",
+                       harness_args=["-world", "world.json"], env=env)
+        reports = []
+        for f in glob.glob(os.path.join(wd, "race.*")):
+            reports += [r for r in open(f, errors="replace").read().split("==================") if "DATA RACE" in r]
+        lib, harness_only = [], []
+        for r in reports:
+            # the two conflicting accesses: the first frames after "Write at / Read at / Previous write / Previous read"
+            acc = re.findall(r"(?:Write|Read|Previous write|Previous read) at .*?\n((?:  .*\n      .*\n){1,4})", r)
+            (lib if any("github.com/zitadel/oidc" in a for a in acc) else harness_only).append(r)
+        if harness_only and not lib:
+            raise Inconclusive("race reports with no library frame in either access (harness race):\n" + harness_only[0][:2500])
+        if reports:
+            with open(os.path.join(wd, "race.txt"), "w") as f:
+                f.write("\n==================\n".join(reports))
+        for v in tb["viols"]:
+            if v["rule"] == "C20.racefree" and lib:
+                m = re.findall(r"  (github.com/zitadel/oidc[^\s(]+)\(", lib[0])
+                v["race_frames"] = m[:4]
+        new, known = report(pid, tb["viols"], lambda v: v["signature"],
+                            lambda v: dict(rule=v["rule"], module=v["module"], id=v["id"], case=v["case"], observed=v["observed"], race_frames=v.get("race_frames")),
+                            wd, ["race.txt"], seed, tier, extra_save=write_cases)
+        merge_evidence(pid, tier, seed, t0, None, [tb], new, known,
+                       ["sequential programs: every sequence of <= 2 (quick) / <= 3 (thorough) of the 27 operations; after each program the snapshot of 12 shared cells "
+                        "(package defaults, default and caller-supplied HTTP client incl. whether they still follow redirects, discovery and routes of a provider / legacy "
+                        "server created earlier, endpoints of an RP created earlier, a storage-owned DeviceAuthorizationState) is compared with the snapshot before; cells are restored between programs",
+                        "concurrent programs: every pair of operations, three goroutines each, released together, six repetitions, built with -race; data races are dynamic "
+                        "observations of the Go race detector (a race needing a schedule it never sees is missed) - DESIGN.md §4",
+                        "the *oauth2.Config handed to NewRelyingPartyOAuth and option arguments consumed at construction are not treated as caller-owned cells"])
+        cov = tb["coverage"]
+        if not cov.get("seq") or not cov.get("conc"):
+            raise Inconclusive("vacuous: no sequential or no concurrent program ran")
+        return 1 if new else 0
+    finally:
+        cleanup(wd)
+
+
 CHECKS = {
+    "C20": c20_check,
     "C19": simple_table_check(
         [dict(module="Discovery", sub="tbl-discovery", prefixes=("C19.",), sig=c19_sig, need=c19_need, label="discovery table",
               required=["config:P:host:default", "config:L:host:custom", "config:P:path:custom", "config:L:path:default", "config:P:dynamicHost:default", "config:L:dynamicHost:custom",
